@@ -44,6 +44,11 @@ namespace
         typedef igris::timer_basic<igris::timer_spec<TT>, int, int> Base;
         // the three kinds of delegate: member function + object, function with a context pointer, plain function
         static void ext_thunk(void *w, int id, int check) { ((TimerWorldT<TT> *)w)->on_delegate(id, check); }
+        static void ext_null_thunk(void *ctx, int id, int check)
+        {
+            if (ctx != nullptr) kit::defer_violation("C16/delegate-arguments", "%s", "a context-function delegate bound to a NULL context was called with another context");
+            plain_target()->on_delegate(id, check);
+        }
         static TimerWorldT<TT> *&plain_target() { static TimerWorldT<TT> *t = nullptr; return t; }
         static void plain_thunk(int id, int check) { plain_target()->on_delegate(id, check); }
         // a handler object with two bases: the bound method comes from the second one, so calling it needs a this-adjustment
@@ -76,7 +81,13 @@ namespace
                 return igris::make_delegate(h, &device());
             }
             if (kind == 0) return igris::make_delegate(&TimerWorldT<TT>::on_delegate, w);
-            if (kind == 2) return igris::make_delegate(&ext_thunk, (void *)w);
+            if (kind == 2 && (id & 2)) return igris::make_delegate(&ext_thunk, (void *)w);
+            if (kind == 2)
+            {
+                // the same kind with a NULL context (the function finds its object elsewhere, as C code does)
+                plain_target() = w;
+                return igris::make_delegate(&ext_null_thunk, (void *)nullptr);
+            }
             plain_target() = w;
             return igris::make_delegate(&plain_thunk);
         }
